@@ -46,7 +46,7 @@ def toTVOp (s : St) : Op → Option (Vecs.Op Nat)
   | .extIter h n => some (.extend h (List.range' s.mem.next n))
   | .append n => some (.append (List.range' s.mem.next n))
   | .splitOff a => some (.splitOff a)
-  | .drain a b sc f => some (.drain (.incl a) (.excl b) (sc.map sideOf) (finOf f))
+  | .drain a b sc f => some (.drain (.incl a) (.excl b) (sc.flatMap sidesOf) (finOf f))
   | .reserve n => some (.reserve n)
   | .shrinkFit => some .shrinkToFit
   | .roundtrip => if s.v.len ≤ rtCap then some (.from .other 0 (absL s)) else none
